@@ -2,11 +2,154 @@
 use crate::proto::{self, Toks, R};
 use crate::rng::Rng;
 use crate::shapes::*;
-use geo::algorithm::relate::{PreparedGeometry, Relate};
+use geo::algorithm::relate::{verif, PreparedGeometry, Relate};
 use geo_types::*;
 use std::panic::{catch_unwind, AssertUnwindSafe};
 
-pub fn gen(rng: &mut Rng, _index: u64) -> String {
+pub fn gen(rng: &mut Rng, index: u64) -> String {
+    // every fourth case is a graph-construction case, the rest are call histories
+    if index % 4 == 3 {
+        return gen_graph(rng);
+    }
+    gen_hist(rng)
+}
+
+/// A point of the tiny grid used for the graph cases: coincidences (shared end points, a point on a
+/// vertex, repeated coordinates) are the rule rather than the exception.
+fn tiny(rng: &mut Rng, k: i64) -> Coord<f64> {
+    if rng.chance(1, 12) {
+        Coord { x: rng.range(0, 2 * k) as f64 / 2.0, y: rng.range(0, 2 * k) as f64 / 2.0 }
+    } else {
+        c(rng.range(0, k), rng.range(0, k))
+    }
+}
+
+/// A line string made to exercise `add_line_string`: repeated coordinates, closed, collapsed to one
+/// point, empty.
+fn dirty_linestring(rng: &mut Rng, k: i64) -> LineString<f64> {
+    match rng.below(10) {
+        0 => LineString(vec![]),
+        1 => {
+            // collapses to a single point
+            let p = tiny(rng, k);
+            LineString((0..rng.range(1, 3)).map(|_| p).collect())
+        }
+        _ => {
+            let n = rng.range(2, 5);
+            let mut v: Vec<Coord<f64>> = vec![];
+            for _ in 0..n {
+                let p = tiny(rng, k);
+                v.push(p);
+                if rng.chance(1, 5) {
+                    v.push(p);
+                }
+            }
+            if rng.chance(1, 3) {
+                let f = v[0];
+                v.push(f);
+            }
+            LineString(v)
+        }
+    }
+}
+
+/// A ring made to exercise `add_polygon_ring`: either orientation, rotated start, repeated
+/// coordinates, degenerate (fewer than 4 coordinates after removing repeats, no winding order).
+fn dirty_ring(rng: &mut Rng, k: i64) -> LineString<f64> {
+    match rng.below(8) {
+        0 => LineString(vec![]),
+        1 => {
+            let p = tiny(rng, k);
+            let q = tiny(rng, k);
+            LineString(if rng.chance(1, 2) { vec![p, p, p] } else { vec![p, q, p] })
+        }
+        2 => {
+            // collinear: no winding order
+            let x = rng.range(0, k);
+            LineString(vec![c(x, 0), c(x, 1), c(x, 2), c(x, 0)])
+        }
+        _ => {
+            let mut r = if rng.chance(1, 2) { gen_polygon(rng, k).exterior().clone() } else { star_polygon(rng, k).exterior().clone() };
+            if r.0.len() >= 4 {
+                let n = r.0.len() - 1;
+                let s = rng.below(n as u64) as usize;
+                let mut v: Vec<Coord<f64>> = (0..n).map(|i| r.0[(s + i) % n]).collect();
+                if rng.chance(1, 2) {
+                    v.reverse();
+                }
+                let f = v[0];
+                v.push(f);
+                // repeated coordinates, possibly the closing one
+                let mut w = vec![];
+                for p in v {
+                    w.push(p);
+                    if rng.chance(1, 6) {
+                        w.push(p);
+                    }
+                }
+                r = LineString(w);
+            }
+            r
+        }
+    }
+}
+
+fn dirty_polygon(rng: &mut Rng, k: i64) -> Polygon<f64> {
+    let ext = dirty_ring(rng, k);
+    let holes: Vec<LineString<f64>> = (0..rng.below(3)).map(|_| dirty_ring(rng, 2)).collect();
+    Polygon::new(ext, holes)
+}
+
+fn graph_geom(rng: &mut Rng, depth: u32) -> Geometry<f64> {
+    let k = *rng.pick(&[2i64, 3, 3, 4]);
+    match rng.below(20) {
+        0..=4 => gen_valid(rng, k),
+        5 => {
+            let g = gen_valid(rng, k);
+            variant(rng, &g)
+        }
+        6 | 7 | 8 => Geometry::MultiLineString(MultiLineString((0..rng.range(0, 5)).map(|_| dirty_linestring(rng, 2)).collect())),
+        9 => Geometry::LineString(dirty_linestring(rng, k)),
+        10 | 11 => Geometry::Polygon(dirty_polygon(rng, k)),
+        12 | 13 => Geometry::MultiPolygon(MultiPolygon((0..rng.range(0, 3)).map(|_| dirty_polygon(rng, k)).collect())),
+        14 => Geometry::MultiPoint(MultiPoint((0..rng.range(0, 4)).map(|_| Point(tiny(rng, 2))).collect())),
+        15 => {
+            let a = tiny(rng, 2);
+            let b = tiny(rng, 2);
+            Geometry::Line(Line::new(a, b))
+        }
+        _ => {
+            // collections: members of every dimension on one tiny grid, nested collections,
+            // multipolygons inside (they switch the boundary determination rule off for the graph)
+            let n = rng.range(0, 4);
+            let mut v = vec![];
+            for _ in 0..n {
+                if depth > 0 && rng.chance(1, 4) {
+                    v.push(graph_geom(rng, depth - 1));
+                } else {
+                    v.push(match rng.below(8) {
+                        0 => Geometry::Point(Point(tiny(rng, 2))),
+                        1 => Geometry::LineString(dirty_linestring(rng, 2)),
+                        2 => Geometry::MultiLineString(MultiLineString((0..rng.range(0, 3)).map(|_| dirty_linestring(rng, 2)).collect())),
+                        3 => Geometry::Polygon(dirty_polygon(rng, 2)),
+                        4 => Geometry::MultiPolygon(MultiPolygon((0..rng.range(0, 2)).map(|_| dirty_polygon(rng, 2)).collect())),
+                        5 => Geometry::GeometryCollection(GeometryCollection(vec![])),
+                        6 => { let kind = *rng.pick(&[7u64, 8]); gen_kind(rng, 2, kind, 0) }
+                        _ => gen_valid(rng, 2),
+                    });
+                }
+            }
+            Geometry::GeometryCollection(GeometryCollection(v))
+        }
+    }
+}
+
+fn gen_graph(rng: &mut Rng) -> String {
+    let g = graph_geom(rng, 2);
+    format!("C17.graph {} {}", rng.below(2), proto::geom(&g))
+}
+
+fn gen_hist(rng: &mut Rng) -> String {
     let k = *rng.pick(&[3i64, 4, 4, 6]);
     let n = rng.range(2, 3) as usize;
     let gs: Vec<Geometry<f64>> = (0..n)
@@ -51,6 +194,16 @@ pub fn gen(rng: &mut Rng, _index: u64) -> String {
     s
 }
 
+/// FNV-1a over the bytes of a dump: the digests are compared on the Lean side
+fn fnv(s: &str) -> u64 {
+    let mut h: u64 = 0xcbf29ce484222325;
+    for b in s.bytes() {
+        h ^= b as u64;
+        h = h.wrapping_mul(0x100000001b3);
+    }
+    h
+}
+
 fn im_str(m: geo::algorithm::relate::IntersectionMatrix) -> String {
     let s = format!("{:?}", m);
     s.trim_start_matches("IntersectionMatrix(").trim_end_matches(')').to_string()
@@ -85,6 +238,22 @@ pub fn eval(op: &str, t: &mut Toks) -> R<String> {
                         borrowed[idx] = Some(PreparedGeometry::from(&gs[idx]));
                     }
                 }
+                // digest of the caches of the prepared operands of this call (hook `prepared_cache_dump`)
+                macro_rules! caches {
+                    () => {{
+                        let mut d = String::new();
+                        for (idx, m) in [(i, &mi), (j, &mj)] {
+                            match m.as_str() {
+                                "o" => d.push_str(&verif::prepared_cache_dump(owned[idx].as_ref().unwrap())),
+                                "b" => d.push_str(&verif::prepared_cache_dump(borrowed[idx].as_ref().unwrap())),
+                                _ => {}
+                            }
+                            d.push(';');
+                        }
+                        fnv(&d)
+                    }};
+                }
+                let cache_before = catch_unwind(AssertUnwindSafe(|| caches!()));
                 let r = catch_unwind(AssertUnwindSafe(|| {
                     macro_rules! rhs {
                         ($a:expr) => {
@@ -114,8 +283,54 @@ pub fn eval(op: &str, t: &mut Toks) -> R<String> {
                     Ok(m) => out.push_str(&im_str(m)),
                     Err(_) => out.push_str("panic"),
                 }
+                // the caches after the call, against before it
+                let cache_after = catch_unwind(AssertUnwindSafe(|| caches!()));
+                match (cache_before, cache_after) {
+                    (Ok(a), Ok(b)) => out.push_str(&format!(" {:016x}:{:016x}", a, b)),
+                    _ => out.push_str(" panic:panic"),
+                }
+                // what the (by now reused) prepared operands hand out for their positions, against the
+                // freshly built and self-noded graphs of the plain geometries for the same positions
+                let clone_vs_fresh = catch_unwind(AssertUnwindSafe(|| {
+                    let mut cl = String::new();
+                    let mut fr = String::new();
+                    for (pos, (idx, m)) in [(i, &mi), (j, &mj)].into_iter().enumerate() {
+                        match m.as_str() {
+                            "o" => cl.push_str(&verif::prepared_graph_dump(owned[idx].as_ref().unwrap(), pos)),
+                            "b" => cl.push_str(&verif::prepared_graph_dump(borrowed[idx].as_ref().unwrap(), pos)),
+                            _ => continue,
+                        }
+                        fr.push_str(&verif::graph_dump_noded(&gs[idx], pos));
+                        cl.push(';');
+                        fr.push(';');
+                    }
+                    (fnv(&cl), fnv(&fr))
+                }));
+                match clone_vs_fresh {
+                    Ok((a, b)) => out.push_str(&format!(" {:016x}:{:016x}", a, b)),
+                    Err(_) => out.push_str(" panic:panic"),
+                }
             }
             Ok(out)
+        }
+        "C17.graph" => {
+            // the graph of one operand: freshly built, freshly built and self-noded (what `relate`
+            // works on for a plain operand), and as handed out by a prepared geometry
+            let idx = t.usize()?;
+            if idx > 1 {
+                return Err("arg index must be 0 or 1".into());
+            }
+            let g = t.geom()?;
+            let part = |f: &dyn Fn() -> String| match catch_unwind(AssertUnwindSafe(f)) {
+                Ok(s) => s,
+                Err(_) => "panic".to_string(),
+            };
+            Ok(format!(
+                "{} | {} | {}",
+                part(&|| verif::graph_dump(&g, idx, false)),
+                part(&|| verif::graph_dump_noded(&g, idx)),
+                part(&|| verif::graph_dump(&g, idx, true))
+            ))
         }
         _ => Err(format!("unknown op {}", op)),
     }
